@@ -4587,6 +4587,7 @@ func (r *RoutingPolicy) DeletePolicy(x *Policy, all, preserve bool, activeId []s
 		return false
 	}
 
+	before := y.Statements
 	if all {
 		if inUse(activeId) {
 			err = fmt.Errorf("can't delete. policy %s is in use", name)
@@ -4600,7 +4601,19 @@ func (r *RoutingPolicy) DeletePolicy(x *Policy, all, preserve bool, activeId []s
 		err = y.Remove(x)
 	}
 	if err == nil && !preserve {
-		for _, st := range y.Statements {
+		// the statements this operation took out of the policy: all of them,
+		// or the former members named in the request (after y.Remove,
+		// y.Statements holds only the remaining ones)
+		removed := before
+		if !all {
+			removed = make([]*Statement, 0, len(x.Statements))
+			for _, st := range before {
+				if slices.ContainsFunc(x.Statements, func(z *Statement) bool { return z.Name == st.Name }) {
+					removed = append(removed, st)
+				}
+			}
+		}
+		for _, st := range removed {
 			if !r.statementInUse(st) {
 				r.logger.Debug("delete unused statement",
 					slog.String("Topic", "Policy"),
